@@ -90,6 +90,16 @@ def respond (line : String) : String :=
          let e := match fin with | .clean => "clean" | .error _ => "err"
          s!"hdr ({mstr.drop 1}) {hex marker} items ({vstr.drop 1}) end {e}")
     | _, _, _, _, _, _ => "bad-request"
+  | [.atom "rditems", lim, szv, sze, names, schema, bytes] =>
+    match atomNat? lim, atomNat? szv, atomNat? sze, parseNames names, parseSchema schema, atomBytes? bytes with
+    | some lim, some szv, some sze, some env, some s, some b =>
+      (match readFile { lim := lim, szValue := szv, szEntry := sze } Codec.null env bigFuel s b with
+       | .error _ => "err open"
+       | .ok (_, _, vs, fin) =>
+         let vstr := String.join (vs.map (fun v => " " ++ showValue v))
+         let e := match fin with | .clean => "clean" | .error _ => "err"
+         s!"items ({vstr.drop 1}) end {e}")
+    | _, _, _, _, _, _ => "bad-request"
   | [.atom "wrcheck", bsz, .list fmeta, marker, .list ops, implFile, implResS] =>
     let implRes : List Sexp := match implResS with | .list l => l | _ => []
     match atomNat? bsz, atomBytes? marker, atomBytes? implFile with
